@@ -66,6 +66,8 @@ def check(ctx):
   ctx.decline('all interfaces / URIs as inputs are not enumerated')
   f = prog.func(CORE, 'ClientProxyBuilder._BuildServiceProxy')
   r1(ctx, f)
+  late_binding(ctx, f)
+  proxy_cache(ctx)
   r2(ctx, f)
   r3(ctx, f)
   r4(ctx)
@@ -195,6 +197,40 @@ def r1(ctx, f):
   ctx.ob('C20.R1', pm, 'ProxyMethod defaults to the blocking form', len(d) == 1 and U(d[0]) == 'False', 'default is %s' % [U(x) for x in d], why, nontrivial=False)
   outer_ret = [n for n in walk_no_nested(pm.node) if isinstance(n, ast.Return)]
   ctx.ob('C20.R1', pm, 'ProxyMethod returns the wrapper', len(outer_ret) == 1 and U(outer_ret[0].value) == inner.name, 'ProxyMethod returns %s' % [U(r) for r in outer_ret], why, nontrivial=False)
+
+
+def late_binding(ctx, f):
+  from ..util import late_bound_loopvars
+  lb = late_bound_loopvars(f.node)
+  ctx.ob('C20.R1', f, 'generated methods bind their method name when they are built, not when they are called', not lb,
+         'a function defined in the loop over the interface methods reads the loop variable %s when it is CALLED: every such proxy dispatches the last method of the interface' % sorted(set(v for _, v in lb)),
+         'both forms hand the method name the caller used to the dispatcher')
+
+
+def proxy_cache(ctx):
+  prog = ctx.prog
+  f = prog.func(CORE, 'ClientProxyBuilder.CreateServiceClient') if prog.try_func(CORE, 'ClientProxyBuilder.CreateServiceClient') else None
+  if f is None:
+    return
+  iface = f.params[0]
+  why = ('for every interface class the client is built from that class: a cache keyed by anything coarser than the class object (its name, its module) '
+         'hands the proxy of one interface to another one with the same name (thrift modules all call theirs Iface)')
+  keys = []
+  for n in walk_no_nested(f.node):
+    if isinstance(n, ast.Call) and call_attr(n) in ('get', 'setdefault', 'pop') and '_PROXY_TYPE_CACHE' in U(n.func.value) and n.args:
+      keys.append(resolved_key(f, n.args[0]))
+    if isinstance(n, ast.Subscript) and '_PROXY_TYPE_CACHE' in U(n.value):
+      keys.append(resolved_key(f, n.slice))
+  ctx.ob('C20.R1', f, 'generated proxy classes are cached by the interface class itself', bool(keys) and all(k == iface for k in keys),
+         'proxy cache keys: %s' % keys, why)
+
+
+def resolved_key(f, expr):
+  t = U(expr)
+  for st in walk_no_nested(f.node):
+    if isinstance(st, ast.Assign) and U(st.targets[0]) == t:
+      return U(st.value)
+  return t
 
 
 def r2(ctx, f):
